@@ -350,15 +350,32 @@ func reentrant(r *lib.Report, tier string) (int64, int64, []interface{}) {
 	}
 	// size sweep: n subscriptions for every n up to 70 (the registration list grows, and may be re-allocated,
 	// at sizes the small histories never reach): publish, remove every third, publish, add three, publish
-	for n := 1; n <= 70; n++ {
+	// ... then one subscription (the first / the middle one / the last) removes ITSELF from inside its OnNext while
+	// the value is being delivered: everybody registered when Publish was called still gets that value once, in order;
+	// and the sizes continue around the powers of two up to 1025
+	sweep := []int{}
+	for n := 1; n <= 140; n++ {
+		sweep = append(sweep, n)
+	}
+	for p := 256; p <= 1024; p *= 2 {
+		sweep = append(sweep, p-1, p, p+1)
+	}
+	for _, n := range sweep {
 		trans++
 		states++
 		p := fpgo.PublisherNewGenerics[int]()
 		var got []string
 		var handles []*fpgo.Subscription[int]
 		var live []int
+		leaver := -1
 		sub := func(id int) {
-			handles = append(handles, p.Subscribe(fpgo.Subscription[int]{OnNext: func(v int) { got = append(got, fmt.Sprintf("%d<-%d", id, v)) }}))
+			handles = append(handles, p.Subscribe(fpgo.Subscription[int]{OnNext: func(v int) {
+				got = append(got, fmt.Sprintf("%d<-%d", id, v))
+				if id == leaver && v >= 4 {
+					leaver = -1
+					p.Unsubscribe(handles[id])
+				}
+			}}))
 			live = append(live, id)
 		}
 		expect := func(v int) string {
@@ -395,6 +412,16 @@ func reentrant(r *lib.Report, tier string) (int64, int64, []interface{}) {
 				sub(n + k)
 			}
 			step(fmt.Sprintf("%d subscriptions, every third removed, three added", n), 3)
+			for round, pos := range []int{0, len(live) / 2, len(live) - 1} {
+				if pos < 0 || pos >= len(live) {
+					continue
+				}
+				who := live[pos]
+				leaver = who
+				step(fmt.Sprintf("%d subscriptions, every third removed, three added; subscription %d (position %d) removes itself during this delivery", n, who, pos), 4+2*round)
+				live = append(append([]int{}, live[:pos]...), live[pos+1:]...)
+				step(fmt.Sprintf("... after subscription %d removed itself", who), 5+2*round)
+			}
 		}); msg != "" {
 			fail = msg
 		}
